@@ -113,7 +113,8 @@ func Corpus() *Program {
 		fld("EvTags", 4, KString, list()))
 	msg("EmbP", nil,
 		fld("EpStr", 1, KString), fld("EpNum", 2, KInt32), fld("EpFlag", 3, KBool),
-		fld("EpHidden", 4, KString)) // excluded: a field of a nullable embedded message the schema does not describe
+		fld("EpHidden", 4, KString), // excluded: a field of a nullable embedded message the schema does not describe
+		fld("EpTime", 5, KTime), fld("EpDur", 6, KDuration), fld("EpTimeV", 7, KTime, nonNull()), fld("EpBytes", 8, KBytes))
 	// embedded messages inside list elements and map values; three levels of nesting
 	msg("WithEmbed", nil,
 		fld("WeStr", 1, KString),
